@@ -111,7 +111,7 @@ pub open spec fn value_kind(b: u8, v: JsonValue) -> bool {
 }
 pub trait JsonParser {
     spec fn rv(&self) -> RView;
-//@@ fn lex.t.next_json_value = src/json_parser.rs :: trait JsonParser :: fn next_json_value
+//@@ fn jsonparser.next_json_value = src/json_parser.rs :: trait JsonParser :: fn next_json_value
 //@@ ret r
 //@@ header
         requires old(self).rv().ok,
@@ -134,7 +134,7 @@ pub trait JsonParser {
 
 pub trait JsonParserUtils {
     spec fn rv2(&self) -> RView;
-//@@ fn lex.t.read_reserved_word = src/json_parser.rs :: trait JsonParserUtils :: fn read_reserved_word
+//@@ fn jsonparserutils.read_reserved_word = src/json_parser.rs :: trait JsonParserUtils :: fn read_reserved_word
 //@@ ret r
 //@@ header
         requires old(self).rv2().ok, old(self).rv2().cur is Some,
@@ -142,7 +142,7 @@ pub trait JsonParserUtils {
             // Ok exactly consumes the first byte and the N expected bytes, which are the bytes that were there
             r is Ok ==> final(self).rv2().pending.len() + N + 1 == old(self).rv2().pending.len() && bytes_at(old(self).rv2().pending, 1, chars@), // @tobl L2.word
 //@@ endfn
-//@@ fn lex.t.read_true = src/json_parser.rs :: trait JsonParserUtils :: fn read_true
+//@@ fn jsonparserutils.read_true = src/json_parser.rs :: trait JsonParserUtils :: fn read_true
 //@@ ret r
 //@@ header
         requires old(self).rv2().ok, old(self).rv2().cur is Some,
@@ -150,7 +150,7 @@ pub trait JsonParserUtils {
             r is Ok ==> final(self).rv2().pending.len() + 4 == old(self).rv2().pending.len(), // @tobl L2.word_len
             r is Ok ==> r->Ok_0 == JsonValue::Boolean(true), // @tobl L2.value
 //@@ endfn
-//@@ fn lex.t.read_false = src/json_parser.rs :: trait JsonParserUtils :: fn read_false
+//@@ fn jsonparserutils.read_false = src/json_parser.rs :: trait JsonParserUtils :: fn read_false
 //@@ ret r
 //@@ header
         requires old(self).rv2().ok, old(self).rv2().cur is Some,
@@ -158,7 +158,7 @@ pub trait JsonParserUtils {
             r is Ok ==> final(self).rv2().pending.len() + 5 == old(self).rv2().pending.len(), // @tobl L2.word_len
             r is Ok ==> r->Ok_0 == JsonValue::Boolean(false), // @tobl L2.value
 //@@ endfn
-//@@ fn lex.t.read_null = src/json_parser.rs :: trait JsonParserUtils :: fn read_null
+//@@ fn jsonparserutils.read_null = src/json_parser.rs :: trait JsonParserUtils :: fn read_null
 //@@ ret r
 //@@ header
         requires old(self).rv2().ok, old(self).rv2().cur is Some,
@@ -166,7 +166,7 @@ pub trait JsonParserUtils {
             r is Ok ==> final(self).rv2().pending.len() + 4 == old(self).rv2().pending.len(), // @tobl L2.word_len
             r is Ok ==> r->Ok_0 == JsonValue::Null, // @tobl L2.value
 //@@ endfn
-//@@ fn lex.t.read_array = src/json_parser.rs :: trait JsonParserUtils :: fn read_array
+//@@ fn jsonparserutils.read_array = src/json_parser.rs :: trait JsonParserUtils :: fn read_array
 //@@ ret r
 //@@ header
         requires old(self).rv2().ok, old(self).rv2().cur is Some,
@@ -177,7 +177,7 @@ pub trait JsonParserUtils {
                !is_io(r) && at(p, 1 + w) == Some(0x5du8) ==> r is Ok && r->Ok_0 == json_array(Seq::empty()) && final(self).rv2().pending.len() == p.len() - (w + 2) }), // @tobl L2.empty_array
         decreases old(self).rv2().pending.len(), 1int,
 //@@ endfn
-//@@ fn lex.t.read_object = src/json_parser.rs :: trait JsonParserUtils :: fn read_object
+//@@ fn jsonparserutils.read_object = src/json_parser.rs :: trait JsonParserUtils :: fn read_object
 //@@ ret r
 //@@ header
         requires old(self).rv2().ok, old(self).rv2().cur is Some,
@@ -187,7 +187,7 @@ pub trait JsonParserUtils {
                !is_io(r) && at(p, 1 + w) == Some(0x7du8) ==> r is Ok && r->Ok_0 == json_object(Seq::empty()) && final(self).rv2().pending.len() == p.len() - (w + 2) }), // @tobl L2.empty_object
         decreases old(self).rv2().pending.len(), 1int,
 //@@ endfn
-//@@ fn lex.t.read_number = src/json_parser.rs :: trait JsonParserUtils :: fn read_number
+//@@ fn jsonparserutils.read_number = src/json_parser.rs :: trait JsonParserUtils :: fn read_number
 //@@ ret r
 //@@ header
         requires old(self).rv2().ok, old(self).rv2().cur matches Some(b) && (b == 0x2du8 || is_digit(b)),
@@ -206,14 +206,14 @@ pub trait JsonParserUtils {
                    &&& (!num_is_double(p) && num_sign(p) == 1 && parse_of::<i64>(t) is None ==> parse_of::<f64>(t) is Some && r->Ok_0 == json_of_f64(parse_of::<f64>(t)->0))
                } }), // @tobl L2.number_value
 //@@ endfn
-//@@ fn lex.t.read_string = src/json_parser.rs :: trait JsonParserUtils :: fn read_string
+//@@ fn jsonparserutils.read_string = src/json_parser.rs :: trait JsonParserUtils :: fn read_string
 //@@ ret r
 //@@ header
         requires old(self).rv2().ok, old(self).rv2().cur is Some,
         ensures lex_post(old(self).rv2(), final(self).rv2(), r), progress(old(self).rv2(), final(self).rv2(), r),
             r is Ok ==> r->Ok_0 is String, // @tobl L2.kind
 //@@ endfn
-//@@ fn lex.t.parse_to_double = src/json_parser.rs :: trait JsonParserUtils :: fn parse_to_double
+//@@ fn jsonparserutils.parse_to_double = src/json_parser.rs :: trait JsonParserUtils :: fn parse_to_double
 //@@ ret r
 //@@ header
         ensures !is_io(r), r is Ok ==> r->Ok_0 is Number,
